@@ -84,14 +84,14 @@ def run_display_threshold(cfg, L, band):
         m.labels.add('display: exponent' if has_exp else 'display: plain')
         if has_exp:
             return [('exponent notation only beyond the configured thresholds (or beyond the fixed 20-zero cut-off / the configured padding limit)', z3.Not(z3.Or(want_exp, trail > 20, trail > cfg['PAD'])))]
-        return [('plain notation only within the configured thresholds', want_exp)]
+        return [('plain notation only within the configured thresholds and the configured / fixed padding limits', z3.Or(want_exp, z3.And(trail > 0, z3.Or(trail > cfg['PAD'], trail > 20))))]
     return run
 
 
 def worker(t):
     prog = H.get_program(env=t['env'])
     cfg = t['cfg']
-    S.BITS_MODE[:] = ['uf', 128]
+    S.BITS_MODE[:] = ['ladder', 192]        # exact bit-length facts (the pinned code of this property never asks for bits() of a symbolic integer; rewrites might)
     saved = list(E.DEFAULT_OVERRIDES)
     try:
         k = t['kind']
@@ -179,7 +179,8 @@ def confirm(v):
         L = len(str(mdl['n']))
         want_exp = (mdl['scale'] - L > cfg['LO']) or (-mdl['scale'] > cfg['HI'])
         has_exp = 'e' in out.lower()
-        bad = (has_exp and not (want_exp or -mdl['scale'] > 20 or -mdl['scale'] > cfg['PAD'])) or (not has_exp and want_exp)
+        trail = -mdl['scale']
+        bad = (has_exp and not (want_exp or trail > 20 or trail > cfg['PAD'])) or (not has_exp and (want_exp or (trail > 0 and (trail > cfg['PAD'] or trail > 20))))
         return bad, out
     if k == 'round':
         line = 'round\t%s\t%d' % (H.dec_str(mdl['n'], mdl['s0']), mdl['s0'] - t['k'])
